@@ -417,6 +417,9 @@ class MarkdownNormalizer(Renderer):
         with self.container("> ", "> "):
             result = self.render_children(element).rstrip("\n")
         self._prefix = self._second_prefix
+        # A heading that ends the quote has put its blank line inside the quote, so the
+        # blank line that follows the quote must still be rendered.
+        self._skip_next_blank_line = False
         # After rendering a quote block, don't suppress the next item break
         # This ensures proper spacing after list items with quote blocks
         self._suppress_item_break = False
@@ -499,7 +502,9 @@ class MarkdownNormalizer(Renderer):
             # Don't skip next blank line or suppress item break for hard breaks
             return result
         else:
-            result = f"{self._prefix}{'#' * element.level} {children_content}\n\n"
+            # The blank line after the heading stays inside the enclosing quote or list item.
+            blank_line = self._second_prefix.rstrip()
+            result = f"{self._prefix}{'#' * element.level} {children_content}\n{blank_line}\n"
             self._prefix = self._second_prefix
             # Skip the next blank line since we already added one
             self._skip_next_blank_line = True
@@ -731,6 +736,7 @@ class MarkdownNormalizer(Renderer):
             result = self.render_children(element).rstrip("\n")
 
         self._prefix = self._second_prefix
+        self._skip_next_blank_line = False
         # After rendering an alert block, don't suppress the next item break
         self._suppress_item_break = False
         return f"{alert_header}{result}\n"
